@@ -68,7 +68,7 @@ class AEv:
 
 
 class World:
-    def __init__(self, rnd, codes=None, big_tids=True):
+    def __init__(self, rnd, codes=None, big_tids=True, allow_zero_tid=True):
         self.rnd = rnd
         self.codes = dict(default_codes()) if codes is None else codes
         self.parser_codes = self.codes        # the table handed to the code (may be the code's own parse of a text)
@@ -79,6 +79,10 @@ class World:
         self.tids = {}
         self.rtids = {}
         self.big_tids = big_tids
+        # boundary value: one abstract thread (if any) IS thread id 0 in about a quarter of the worlds
+        self.zero_tid = rnd.choice([1, 2, 3]) if rnd.random() < 0.25 else None
+        if not allow_zero_tid:      # log records: thread id 0 means "no thread" there, the abstraction keeps 0 for it
+            self.zero_tid = None
         self.code_ids = {}
         self.by_cls = {}
         for n, a in AUDIT.items():
@@ -97,6 +101,10 @@ class World:
     # ---- maps
     def ctid(self, t):
         if t not in self.tids:
+            if t == self.zero_tid and 0 not in self.rtids:
+                self.tids[t] = 0
+                self.rtids[0] = t
+                return 0
             while True:
                 c = self.rnd.getrandbits(63) | (1 << 40) if self.big_tids else 1000 + t
                 if c not in self.rtids:
@@ -192,7 +200,7 @@ class World:
         return self._mk(name, cls, q, t, a, data=data)
 
     def lookup(self, t, path: bytes, vid=None):
-        vid = self.rnd.getrandbits(64) if vid is None else vid
+        vid = (self.rnd.getrandbits(64) if self.rnd.random() < 0.9 else 0) if vid is None else vid
         return [self.chunk('VFS_LOOKUP', 'LKP', q, t, d) for q, d in lookup_records(path, vid)]
 
     def gstr(self, t, text: bytes, sid, dbg=0):
